@@ -237,6 +237,91 @@ theorem drained_after_zero_update (c : Cfg) (hb : PosBeh c.beh) (s s' : St)
   · intro pf hpf
     exact (key.2 pf hpf).2.1
 
+/-- every `next_update` issued in the zero-length forced pass covers a non-empty interval that ends at the clock:
+the process was behind (`start < gt`), is handed `gt − start > 0` and is due now -/
+theorem poll_at_end_invoke (beh : Beh) (hb : PosBeh beh) (gt : Int) (v : Store) (p : Pid) (f : Front)
+    (hf : FrontOK gt f) (hnp : f.pending = none)
+    (q : Pid) (n : Nat) (g st ts du : Int) (vw : Store) (u : Upd)
+    (hev : Ev.invoke q n g st ts du vw u ∈ (poll beh gt gt true v p f).evs) :
+    0 < ts ∧ st + ts = gt ∧ du = gt ∧ st = f.time := by
+  have hpos := hb p f.nTs v
+  unfold poll pollWith at hev
+  unfold FrontOK at hf
+  cases hs : f.sticky <;> simp only [hnp, hs] at hf hev <;> grind
+
+/-- **No empty interval is ever handed out by `update(0)`** (fix F50): every `next_update` call that a
+zero-length forced completion adds to the log was issued at the (unchanged) global time for a process that was
+behind, covers the non-empty interval from where that process stood up to the global time, and is due now. -/
+theorem zero_update_timesteps_positive (c : Cfg) (hb : PosBeh c.beh) (s s' : St)
+    (hinv : Inv s) (hnp : NoPending s) (hrun : runFor c 0 true s = some s')
+    (q : Pid) (n : Nat) (g st ts du : Int) (vw : Store) (u : Upd)
+    (hev : Ev.invoke q n g st ts du vw u ∈ s'.log) :
+    Ev.invoke q n g st ts du vw u ∈ s.log ∨ (0 < ts ∧ st + ts = s.gt ∧ du = s.gt) := by
+  -- the result is one pass of the loop
+  have key := iter_at_end c hb { s with emitTime := s.gt + c.emitStep } hinv hnp
+  simp only at key
+  unfold runFor at hrun
+  simp only [Int.add_zero, Nat.zero_add, Int.natCast_zero] at hrun
+  unfold loop at hrun
+  simp only [Bool.or_true, ite_true] at hrun
+  rw [show (iter c s.gt true { s with emitTime := s.gt + c.emitStep }).gt = s.gt from key.1] at hrun
+  simp only [decide_true, Bool.and_self, ite_true] at hrun
+  unfold loop at hrun
+  simp [key.1] at hrun
+  subst hrun
+  -- an invocation in the poll events of this pass
+  have hpoll : ∀ pf ∈ s.fronts, Ev.invoke q n g st ts du vw u ∈
+      (poll c.beh s.gt s.gt true s.store pf.1 pf.2).evs → (0 < ts ∧ st + ts = s.gt ∧ du = s.gt) := by
+    intro pf hpf h
+    have := poll_at_end_invoke c.beh hb s.gt s.store pf.1 pf.2 (hinv pf hpf) (hnp pf hpf) q n g st ts du vw u h
+    exact ⟨this.1, this.2.1, this.2.2.1⟩
+  have hsettle : ∀ (gt' : Int) (os : List (Pid × Outcome)),
+      Ev.invoke q n g st ts du vw u ∉ (os.map (settleEv gt')).flatten := by
+    intro gt' os h
+    simp only [List.mem_flatten, List.mem_map] at h
+    obtain ⟨l, ⟨po, _, rfl⟩, hel⟩ := h
+    unfold settleEv at hel
+    split at hel <;> simp at hel
+  have hpollEvs : Ev.invoke q n g st ts du vw u ∈
+      ((s.fronts.map (fun pf => (pf.1, poll c.beh s.gt s.gt true s.store pf.1 pf.2))).map
+        (fun po => po.2.evs)).flatten → (0 < ts ∧ st + ts = s.gt ∧ du = s.gt) := by
+    intro h
+    simp only [List.map_map, List.mem_flatten, List.mem_map, Function.comp_def] at h
+    obtain ⟨l, ⟨pf, hpf, rfl⟩, hel⟩ := h
+    exact hpoll pf hpf hel
+  unfold iter at hev
+  dsimp only at hev
+  cases hfs : fullStep (s.fronts.map (fun pf => (pf.1, poll c.beh s.gt s.gt true s.store pf.1 pf.2))) with
+  | none =>
+    simp only [hfs, List.mem_append] at hev
+    rcases hev with (h | h) | h
+    · exact Or.inl h
+    · exact Or.inr (hpollEvs h)
+    · exact absurd h (hsettle _ _)
+  | some d =>
+    simp only [hfs] at hev
+    split at hev
+    · obtain ⟨X2, hX2, oX2⟩ := emitAfter_log c.emitEvery c.emitStep c.flagged (runSteps c.sb
+        (applyBatch { s with emitTime := s.gt + c.emitStep }
+          (s.fronts.map (fun pf => (pf.1, poll c.beh s.gt s.gt true s.store pf.1 pf.2))) (s.gt + d)))
+      obtain ⟨X1, hX1, oX1⟩ := runSteps_log c.sb
+        (applyBatch { s with emitTime := s.gt + c.emitStep }
+          (s.fronts.map (fun pf => (pf.1, poll c.beh s.gt s.gt true s.store pf.1 pf.2))) (s.gt + d))
+      rw [hX2, hX1, applyBatch_log] at hev
+      simp only [List.mem_append, List.mem_map] at hev
+      rcases hev with ((((h | h) | h) | ⟨pdu, _, h⟩) | h) | h
+      · exact Or.inl h
+      · exact Or.inr (hpollEvs h)
+      · exact absurd h (hsettle _ _)
+      · cases h
+      · have := oX1 _ h; simp [owner] at this
+      · have := oX2 _ h; simp [owner] at this
+    · simp only [List.mem_append] at hev
+      rcases hev with (h | h) | h
+      · exact Or.inl h
+      · exact Or.inr (hpollEvs h)
+      · exact absurd h (hsettle _ _)
+
 /-- non-vacuity: `update(3); update(0)` equals `update(3)` on the F1 witness below, and after
 `run_for(2); run_for(2)` with timesteps 2 and 5 the call `update(0)` hands the lagging process the 4 time
 units it is behind and nothing to the other one -/
